@@ -139,14 +139,18 @@ func runC06(r *Run) {
 		"non-trivial = at least one entry or extension; distinct by document bytes digest"
 	counts := []int{0, 0, 1, 1, 2, 3, 5, 8, 13, 40, 120, 400}
 	nDocs := 700
+	nBig := 0
 	if r.Thorough() {
 		nDocs = 20000
-		counts = append(counts, 1500, 3000)
+		nBig = 120 // documents with 1500 / 3000 entries: the model driver needs seconds for each (its hash log is a list)
 	}
 	var cases []c06Case
 	rng := r.Rng
 	for i := 0; i < nDocs; i++ {
 		n := counts[rng.Intn(len(counts))]
+		if i < nBig {
+			n = []int{1500, 3000}[i%2]
+		}
 		pad := 0
 		switch rng.Intn(4) {
 		case 0:
@@ -273,6 +277,22 @@ func c06One(r *Run, d *Driver, dir string, idx int, c c06Case) {
 	}
 	if len(der) > 400000 {
 		r.Count("model:skipped-large")
+		return
+	}
+	if c.PEM != 0 && len(file) > 48000 {
+		// the PEM layer of the model is written for clarity, not speed (list appends: quadratic); large PEM files are read
+		// through the model's DER path only, PEM framing of every size class is covered by the pem stream and small files here
+		r.Count("model:pem-large-der-only")
+		m, err := modelReadCRL(d, der)
+		if err != nil {
+			r.Violate("C06 driver-failed", err.Error(), nil)
+			return
+		}
+		obs := m.answer
+		if mm := c06CompareModel(ir, m, der); mm != "" {
+			obs = "MISMATCH impl=" + ir.class + " " + mm
+		}
+		r.Op(m.opLine, obs)
 		return
 	}
 	fileOp := "rd file " + hexs(file)
